@@ -143,13 +143,17 @@ func builtinObjectDefineProperties(call FunctionCall) Value {
 // defineProperties converts every descriptor before defining the first
 // property (15.2.3.7 steps 5-6), so a bad descriptor leaves obj untouched.
 func defineProperties(rt *runtime, obj, properties *object) {
+	// The names are fixed before the first descriptor is read (15.2.3.7 step
+	// 3): reading one may run code that adds or deletes properties.
 	var names []string
-	var descriptors []property
 	properties.enumerate(false, func(name string) bool {
 		names = append(names, name)
-		descriptors = append(descriptors, toPropertyDescriptor(rt, properties.get(name)))
 		return true
 	})
+	descriptors := make([]property, 0, len(names))
+	for _, name := range names {
+		descriptors = append(descriptors, toPropertyDescriptor(rt, properties.get(name)))
+	}
 	for i, name := range names {
 		obj.defineOwnProperty(name, descriptors[i], true)
 	}
